@@ -686,7 +686,7 @@ def replay_lts(ctx, env, edges, rng, known, quick, stats):
     reals = [ObjReal(env, rng.getrandbits(32), st) for st in (0, 1, 2, 1)]
     worlds = [None] * len(reals)
     n = 0
-    rounds = 1 if quick else 3
+    rounds = 1 if quick else 2
     for rnd in range(rounds):
         for i, (sk, es) in enumerate(by_state.items()):
             ri = (i + rnd) % len(reals)
@@ -1438,7 +1438,7 @@ def run(ctx):
     if quick:
         plan = ["small"] * 260 + ["fields"] * 2 + ["paras"] * 2 + ["objs"] * 3 + ["conts"] * 2
     else:
-        plan = ["small"] * 1500 + ["fields"] * 12 + ["paras"] * 12 + ["objs"] * 16 + ["conts"] * 12
+        plan = ["small"] * 1200 + ["fields"] * 12 + ["paras"] * 12 + ["objs"] * 16 + ["conts"] * 12
     traces, seeds = [], []
     for size in plan:
         tseed = rng.getrandbits(32)
@@ -1475,7 +1475,7 @@ def run(ctx):
         n, by_state = replay_lts(ctx, env, edges, rng, known, quick, stats)
         nreplayed += n
         if len(ctx.violations) < 5:
-            nwalks += walk_lts(ctx, env, by_state, rng, known, 20 if quick else 200, 30 if quick else 60)
+            nwalks += walk_lts(ctx, env, by_state, rng, known, 20 if quick else 120, 30 if quick else 60)
     e = em["EDGE"][len(em["EDGE"]) // 2]
     ctx.sample("lts edge: " + json.dumps({k: e[k] for k in ("cfg", "from", "call", "res", "to")}, separators=(",", ":")))
     nacc = replay_acc(ctx, em["ACC"][0], rng, quick, stats)
@@ -1506,7 +1506,7 @@ def run(ctx):
             if len(ctx.violations) >= 5:
                 break
             seed = rng.getrandbits(32)
-            if (quick and (seed % 100) >= (65 if tag == "CASE" else 45)) or (not quick and r is not runs[0] and (seed % 100) >= 60):
+            if (quick and (seed % 100) >= (65 if tag == "CASE" else 45)) or (not quick and r is not runs[0] and (seed % 100) >= 45):
                 nskipped += 1
                 continue
             idx = ncase + narmor
